@@ -79,6 +79,13 @@ def u_tweak_rewrite(c):
             else:
                 c.prove("rewrite/gets-the-values", isinstance(arg, dict) and set(arg) == {"x", "y"} and arg["x"] is x and arg["y"] is y)
             c.prove("rewrite/result-is-the-function's-result", it.to_val(out) == __import__("pvc.sym", fromlist=["ret_of"]).ret_of(c.log))
+        # the documented default: without `full`, the function receives the VALUES
+        dflt = it.call(Ov, [], {})
+        got_d = []
+        st, _ = run(it, it.getattr(dflt, "rewrite"), [{sel: SummaryFn("rw-default", lambda it_, a, k: got_d.append(a[0]))}])
+        if st == "ok" and len(dflt.fields["handlers"]) == 1:
+            run(it, dflt.fields["handlers"][0].fields["_intercept"], [caps])
+        c.prove("rewrite/default-is-values-not-captures", st == "ok" and len(got_d) == 1 and isinstance(got_d[0], dict) and got_d[0] is not caps and got_d[0].get("x") is x)
         # several selectors in ONE call: each rule calls the function given for ITS selector
         sels = [_real_selector(it) for _ in range(2)]
         seen = []
@@ -140,6 +147,14 @@ def u_overlay_register(c):
             c.prove("handler/all-values", isinstance(a, dict) and len(a["x"]) == 1 and a["x"][0] is x)
         else:
             c.prove("handler/full", a is caps)
+    # the documented defaults of register: an immediate rule whose function receives the single values
+    dov = it.call(Ov, [], {})
+    got_r = []
+    st, _ = run(it, it.getattr(dov, "register"), [sel, SummaryFn("default-fn", lambda it_, a, k: got_r.append(a[0]))])
+    ok_d = st == "ok" and len(dov.fields["handlers"]) == 1 and dov.fields["handlers"][0].cls.name == "Immediate"
+    if ok_d:
+        run(it, dov.fields["handlers"][0].fields["_trigger"], [caps])
+    c.prove("register/defaults:immediate-rule-single-values", ok_d and len(got_r) == 1 and isinstance(got_r[0], dict) and got_r[0].get("x") is x and got_r[0].get("y") is y)
     dest = []
     st, d = run(it, it.getattr(base, "tap"), [sel], dict(dest=dest))
     c.prove("tap/returns-the-list-it-appends-to", st == "ok" and d is dest and len(base.fields["handlers"]) == 2)
@@ -327,6 +342,14 @@ def u_value_eval(c):
     st, r = run(it, it.getattr(call, "eval"), [env])
     c.prove("call/evaluated-once-with-evaluated-arguments", st == "ok" and r == "RESULT" and len(calls) == 1 and list(calls[0][0]) == [3]
             and set(calls[0][1]) == {"start"} and calls[0][1]["start"] is glob_v)
+    # several keyword arguments, positional ones in between: every(3, start=g, 7, end=shadow) -> all of them reach the predicate
+    del calls[:]
+    kw = lambda k_, v_: it.call(VKeyword, [it.call(VSymbol, [k_], {}), it.call(VSymbol, [v_], {})], {})
+    call2 = it.call(VCall, [it.call(VSymbol, ["every"], {}), (it.call(VSymbol, ["3"], {}), kw("start", "g"), it.call(VSymbol, ["7"], {}), kw("end", "shadow"), kw("modulo", "12"))], {})
+    st, r = run(it, it.getattr(call2, "eval"), [env])
+    c.prove("call/every-positional-and-keyword-argument-is-passed", st == "ok" and len(calls) == 1 and list(calls[0][0]) == [3, 7]
+            and set(calls[0][1]) == {"start", "end", "modulo"} and calls[0][1]["start"] is glob_v and calls[0][1]["end"] is loc_v and calls[0][1]["modulo"] == 12,
+            note=f"{st} positional={list(calls[0][0]) if calls else None} keywords={sorted(calls[0][1]) if calls else None}")
 
 
 @unit("DictPile", ["C16", "C01"], [U + ":DictPile.__init__", U + ":DictPile.__getitem__", U + ":DictPile.__contains__"])
@@ -426,7 +449,7 @@ def u_validity(c):
         c.prove("encode/parses-back-to-the-same-object", st == "ok" and back is top, note=str(enc))
 
 
-@unit("selector-structure", ["C12", "C03", "C07", "C13"], [S + ":Call.hasval", S + ":Element.hasval", S + ":Call.all_values", S + ":Element.all_values",
+@unit("selector-structure", ["C12", "C03", "C07", "C13", "C04"], [S + ":Call.hasval", S + ":Element.hasval", S + ":Call.all_values", S + ":Element.all_values",
                                                            S + ":Call.all_captures", S + ":Element.all_captures", S + ":Call.focus", S + ":Call.all_tags"],
       mode="bounded", bound="selector trees of depth <= 3 (outer > inner > leaf) with one capture per level, a value condition at any subset of levels")
 def u_selector_structure(c):
